@@ -60,9 +60,11 @@ func checkC14(p *Prog, r *Report) {
 	r.rule("C14.L1", "every field of a package struct that is stored after construction (by a non-deprecated function) has one lock class held at all its post-construction accesses over all call chains from all entry points; writes under an RWMutex need the exclusive mode; or the field is confined to one goroutine (C14.L4)", 40)
 	r.rule("C14.L3", "fields of the shared Snmp counters are only touched through sync/atomic (locals from newSnmp()/Copy() exempt)", 30)
 	r.rule("C14.L4", "fields written after construction without a lock are accepted only when every accessing function is reachable from exactly one goroutine entry (go statement executed once per object)", 5)
+	r.rule("C14.L9", "memory guarded by different mutexes is different memory: the encrypt and decrypt feedback registers of a cipher object (encMu / decMu) are separate make() allocations (= C08.K5 scratch) — slices of one slab that overlap are written by an encryptor and a decryptor at the same time although every access holds 'its' lock", 1)
 	r.rule("C14.L8", "buffers of the global pool have one owner at a time: a buffer that is recycled twice (or used after its recycle) is handed to two sessions, whose goroutines then read and write the same bytes under different mutexes (= C15.O1, O2, O6)", 8)
 	r.rule("C14.L7", "package-level variables are stored only during package initialisation (exception, frozen: entropy via SetEntropy = package configuration)", 1)
 	for _, fr := range []string{"C15.O1", "C15.O2", "C15.O6"} {
+		checkCipherScratch(p, r, "C14.L9")
 		delegate(p, r, "C15", checkC15, fr, "C14.L8")
 	}
 	la := p.Locks()
